@@ -8,7 +8,7 @@
    examples and the correspondence check. *)
 From Coq Require Import ZArith String List Bool Lia.
 From Verif Require Import C17.Model C17.Spec C17.Mputil C17.Proofs C17.ProofsOpts C17.ProofsGeom
-     C17.ProofsRoute C17.ProofsJoin C17.ProofsArea C17.ProofsCarry C17.ProofsGeoEq C17.ProofsDup C17.ProofsGeoBuild C17.ProofsGeoScene C17.Examples C17.ProofsWitness.
+     C17.ProofsRoute C17.ProofsJoin C17.ProofsArea C17.ProofsCarry C17.ProofsGeoEq C17.ProofsDup C17.ProofsAbsorb C17.ProofsGeoBuild C17.ProofsGeoScene C17.Examples C17.ProofsWitness.
 From Verif Require C18.Model C18.Spec C18.Proofs C18.Api Geo.Model Geo.Rings Geo.Orient Geo.Build Geo.Collect Properties.C16.
 From VerifGen Require Import GenTags.
 Import ListNotations.
@@ -99,6 +99,14 @@ Proof. vm_compute. reflexivity. Qed.
       non-negative signed area (counter-clockwise; never clockwise for orb's own test) and is
       those coordinates, closed, in one of the two directions.  Conversely every way-pass
       feature has that form. *)
+(* "the way's resolvable node coordinates": spelled out on the spec side (Spec.spec_resolve: the
+   location annotated on the way node unless it is (0,0), else the location of the LAST node of the
+   data with that id, else none) and equal to the model's [resolve]; [spec_coords d w] is the list
+   of these, in order *)
+Theorem C17_resolve_is_spec : forall d wn, resolve d wn = spec_resolve d wn.
+Proof. exact resolve_spec. Qed.
+Print Assumptions C17_resolve_is_spec.
+
 Theorem C17_way_geometry : forall join ring_of o d w,
   In w (ways d) -> memZ (w_id w) (skippable join ring_of o d) = false ->
   (2 <= List.length (spec_coords d w))%nat ->
@@ -115,6 +123,39 @@ Theorem C17_way_pass_feature : forall join ring_of o d f,
             f_tainted f = unresolved d w /\ way_geometry_spec w (spec_coords d w) (f_geom f).
 Proof. exact way_pass_feature. Qed.
 Print Assumptions C17_way_pass_feature.
+
+(* Which ways get no feature of their own, on the INPUT alone (Spec.absorbed): a way that a route
+   relation has as member and that has no interesting tag; a way that a multipolygon/boundary has
+   as outer member and whose interesting tags are all repeated on the relation, or as inner member
+   without interesting tags; a way adopted by an old-style multipolygon (Spec.adopts).  The
+   skippable set of the model's way pass is exactly that set — also when the absorbing relation
+   itself yields no feature, in which case the way vanishes from the output (allowed by "at most
+   one feature per element"; recorded in notes/C17.md).  Theorem 3 restated over it. *)
+Theorem C17_skippable_is_absorbed : forall join ring_of, ring_single ring_of -> forall o d id,
+  memZ id (skippable join ring_of o d) = absorbed d id.
+Proof. exact skippable_absorbed. Qed.
+Print Assumptions C17_skippable_is_absorbed.
+
+Theorem C17_way_geometry_input : forall join ring_of, ring_single ring_of -> forall o d w,
+  In w (ways d) -> absorbed d (w_id w) = false ->
+  (2 <= List.length (spec_coords d w))%nat ->
+  exists f, In f (convert join ring_of o d) /\ fkey f = (TWay, w_id w) /\
+            f_tainted f = unresolved d w /\ f_tags f = tags_map (w_tags w) /\
+            way_geometry_spec w (spec_coords d w) (f_geom f).
+Proof. exact way_geometry_input. Qed.
+Print Assumptions C17_way_geometry_input.
+
+Theorem C17_absorbed_no_way_feature : forall join ring_of, ring_single ring_of -> forall o d f,
+  In f (way_features join ring_of o d) -> absorbed d (f_ref f) = false.
+Proof. exact absorbed_no_way_feature. Qed.
+Print Assumptions C17_absorbed_no_way_feature.
+
+Example C17_absorbed_nonvacuous :
+  (* d_rich: way 12 (only created_by) is absorbed by the route, way 10 (own building tag) is not
+     absorbed by the tagged multipolygon; d_shared: way 10 is adopted *)
+  map (fun w => absorbed d_rich (w_id w)) (ways d_rich) = [false; false; true; false; false] /\
+  absorbed d_shared 10 = true.
+Proof. vm_compute. split; reflexivity. Qed.
 
 Example C17_way_geometry_nonvacuous :
   (* way 13 of d_rich is an area way given clockwise: the ring comes out reversed *)
@@ -231,6 +272,13 @@ Theorem C17_route_feature_geometry : forall join ring_of o d r f,
   geom_lines (f_geom f) = Some (map ms_line (join (flat_map rs_lines (map (route_step d) (r_members r))))).
 Proof. exact route_feature_geometry. Qed.
 Print Assumptions C17_route_feature_geometry.
+
+(* a route relation yields a feature exactly when one of its member ways is in the data and has
+   a resolvable coordinate (input-only: Spec.route_has_line) *)
+Theorem C17_route_feature_exists : forall join ring_of o d r,
+  is_route r = true -> is_some (snd (rel_result join ring_of o d r)) = route_has_line d r.
+Proof. exact route_relation_feature. Qed.
+Print Assumptions C17_route_feature_exists.
 
 Theorem C17_route_preserves_segments : forall join ring_of o d r f,
   join_conserves_edges join ->
@@ -402,10 +450,33 @@ Example C17_include_invalid_nonvacuous :
   List.length (rel_features Mputil.join Mputil.ring_of (set_incl true o0) d) = 1%nat.
 Proof. vm_compute. split; reflexivity. Qed.
 
+(* The STRONGER reading "with IncludeInvalidPolygons every polygon keeps its own holes" (some
+   polygon of the new geometry has the same outer ring and at least the same holes,
+   Spec.polys_kept) is FALSE of the code:
+     forall o d r f f', snd (rel_result (set_incl false o) d r) = Some f ->
+                        snd (rel_result (set_incl true o) d r) = Some f' ->
+                        polys_kept (f_geom f) (f_geom f') = true.
+   Witness d_hole (also a harness corpus case, where model = implementation): a valid square,
+   an unclosed bigger outer listed after it, a hole inside both.  Without the option the hole
+   belongs to the square; with it the unclosed ring (now admitted, and first in Join order) is
+   the first ring that contains the hole by ray casting and takes it.  options.go documents the
+   option as returning polygons with a nil outer and "rings whose endpoints do not match"; the
+   hole assignment rule itself (first polygon whose outer contains the ring) is unchanged, it
+   ranges over more polygons.  Recorded as documented scope, not as a finding (notes/C17.md,
+   checks.d/C17.json level_note): what is claimed and proved is C17_option_IncludeInvalidPolygons. *)
+Theorem C17_incl_keeps_holes_refuted :
+  exists d r f f',
+    In r (relations d) /\
+    snd (rel_result Mputil.join Mputil.ring_of (set_incl false o0) d r) = Some f /\
+    snd (rel_result Mputil.join Mputil.ring_of (set_incl true o0) d r) = Some f' /\
+    polys_kept (f_geom f) (f_geom f') = false /\
+    rings_sub (geom_rings (f_geom f)) (geom_rings (f_geom f')) = true.
+Proof. exact incl_keeps_holes_refuted. Qed.
+Print Assumptions C17_incl_keeps_holes_refuted.
+
 (* ---------------------------------------------------------------------------------------
-   6. Determinism: the conversion is a function of options and data (the implementation's
-      repeated runs are compared by the harness on every case). *)
-Theorem C17_convert_deterministic : forall join ring_of o1 o2 d1 d2,
-  o1 = o2 -> d1 = d2 -> convert join ring_of o1 d1 = convert join ring_of o2 d2.
-Proof. intros; subst; reflexivity. Qed.
-Print Assumptions C17_convert_deterministic.
+   6. Determinism ("conversion of equal input gives equal output") and input immutability are
+      NOT carried by a theorem: [convert] is a Gallina function, which says nothing about state an
+      implementation might keep between calls or about writes to its argument.  Both clauses are
+      judged by the harness only (two passes over all option sets in one process with omitted
+      options; whole-input deep comparison and output scribbling): see checks.d/C17.json. *)
